@@ -3,6 +3,7 @@ import TakVerif.Proofs.SymOutcome
 import TakVerif.Proofs.SymTransform
 import TakVerif.Proofs.SymDedup
 import TakVerif.Proofs.Outcome
+import TakVerif.Proofs.MoveRefine
 
 /-!
 # C14 — the eight board symmetries commute with the rules
@@ -68,22 +69,25 @@ theorem roadPath_invariant (k : Sym) (s : State) (hs : s.WF) (c : Color) :
 
 /-- the bit-level `WinDetails()` of two well-formed positions, one of which shows (through `At`, reserves, ply)
 the `k`-image of the other, agree — `outcome_invariant` carried to the model through C02's `winDetails_refines` -/
-theorem winDetails_invariant (k : Sym) (p q : Pos) (wfp : Roads.WFBoard p) (wfq : Roads.WFBoard q)
-    (hrp : Roads.ReservesOK p) (hrq : Roads.ReservesOK q) (himg : Spec.abs q = k.state (Spec.abs p)) :
+theorem winDetails_invariant (k : Sym) (p q : Pos) (wfp : Roads.RoadWF p) (wfq : Roads.RoadWF q)
+    (himg : Spec.abs q = k.state (Spec.abs p)) :
     Roads.toOutcome q.winDetails = Roads.toOutcome p.winDetails := by
-  rw [Roads.winDetails_refines p wfp hrp, Roads.winDetails_refines q wfq hrq, himg]
+  rw [Roads.winDetails_refines p wfp, Roads.winDetails_refines q wfq, himg]
   exact Sym.outcome_invariant k (by simp [State.WF, Spec.abs])
 
-/-- the bit-level `Move` under a refinement hypothesis in the form C01 proves it (`Refines`): a move is
-accepted on the image position iff the original move is accepted on the original, and the results again show
-image and original.  Stated for arbitrary raw moves `m`, `m'` that decode to a move and its image. -/
-def Refines (basis : Array W) (p : Pos) : Prop :=
-  ∀ m : Tak.Move, match p.apply basis m with
-    | .ok q => Spec.step (Spec.abs p) (Spec.decode m) = some (Spec.abs q)
-    | .error _ => Spec.step (Spec.abs p) (Spec.decode m) = none
+/-- what `C01.move_refines` concludes for one position and one raw move (it does so for every well-formed
+position and every move other than the internal pass whose result respects the 64-piece limit) -/
+def RefinesAt (basis : Array W) (p : Pos) (m : Tak.Move) : Prop :=
+  match p.apply basis m with
+  | .ok q => Spec.step (Spec.abs p) (Spec.decode m) = some (Spec.abs q)
+  | .error _ => Spec.step (Spec.abs p) (Spec.decode m) = none
 
+/-- the bit-level `Move` commutes with the maps wherever it refines the rule book: a move is accepted on
+the image position iff the original move is accepted on the original, and the results again show image and
+original.  Stated for arbitrary raw moves `m`, `m'` that decode to a move and its image (`transformMove_spec`
+provides `m'`). -/
 theorem apply_equivariant (basis : Array W) (k : Sym) (p q : Pos) (m m' : Tak.Move)
-    (rp : Refines basis p) (rq : Refines basis q)
+    (rp : RefinesAt basis p m) (rq : RefinesAt basis q m')
     (himg : Spec.abs q = k.state (Spec.abs p))
     (hm : Spec.decode m' = k.move p.cfg.size (Spec.decode m)) :
     match p.apply basis m, q.apply basis m' with
@@ -93,13 +97,24 @@ theorem apply_equivariant (basis : Array W) (k : Sym) (p q : Pos) (m m' : Tak.Mo
   have hs : (Spec.abs p).WF := by simp [State.WF, Spec.abs]
   have e : Spec.step (k.state (Spec.abs p)) (k.move p.cfg.size (Spec.decode m)) =
       (Spec.step (Spec.abs p) (Spec.decode m)).map k.state := step_equivariant k (Spec.abs p) hs (Spec.decode m)
-  have e1 := rp m
-  have e2 := rq m'
+  have e1 := rp
+  have e2 := rq
+  unfold RefinesAt at e1 e2
   rw [himg, hm] at e2
   cases h1 : p.apply basis m <;> cases h2 : q.apply basis m' <;> simp only [h1, h2] at e1 e2 ⊢
   · rw [e1] at e; rw [e] at e2; simp at e2
   · rw [e1] at e; rw [e] at e2; simp at e2
   · rw [e1] at e; rw [e] at e2; simp at e2; exact e2.symm
+
+/-- the hypothesis `RefinesAt` is what C01 proves: for every well-formed position and every raw move that is
+not the internal pass and whose result respects the 64-piece limit -/
+theorem refinesAt_of_wf (basis : Array W) (p : Pos) (m : Tak.Move) (hwf : Tak.WF basis p)
+    (hp : m.type ≠ Facts.mtPass) (hlim : Tak.StackLimit p m) : RefinesAt basis p m := by
+  have h := Tak.move_refines_core (basis := basis) (p := p) (fun q => Roads.analyze_ne_none q) hwf m hp hlim
+  unfold RefinesAt
+  cases ha : p.apply basis m with
+  | error e => rw [ha] at h; exact h
+  | ok q => rw [ha] at h; exact h.1
 
 /-! ## 3. `TransformMove` -/
 
@@ -145,7 +160,7 @@ theorem symmetries_spec (basis : Array W) (p : Pos) (rs : List (Pos × Fin 8))
     rw [hps] at h
     have hrs : rs = dedupByHash ps [] [] := by cases h; rfl
     -- what `mapM` returned
-    obtain ⟨m1, m2⟩ := mapM_ok _ _ _ hps
+    obtain ⟨m1, m2⟩ := mapM_ok_mem _ _ _ hps
     have unpack : ∀ (k : Fin 8) (e : Pos × Fin 8),
         (do let q ← imagePos basis p k; pure (q, k) : R (Pos × Fin 8)) = .ok e →
         imagePos basis p k = .ok e.1 ∧ e.2 = k := by
